@@ -115,7 +115,17 @@ fn month_lines(ctx: &Ctx, tag: &str, ranges: Vec<(i64, i64)>) -> usize {
 }
 
 pub fn run(ctx: &Ctx) -> usize {
-  let wins = day_windows(ctx, 201, 200, 300, 2);
+  let mut wins = day_windows(ctx, 201, 200, 300, 2);
+  if ctx.quick() {
+    // two days in mid-January of EVERY year: the weeks before the lunar new year are where one wrong entry of the
+    // leap-month table (or one mislabelled lunation) shows in the civil <-> lunar conversion
+    for y in 30..=9998i64 {
+      if (236..=240).contains(&y) {
+        continue; // reform seam: covered (with its known findings) by the catalogue windows
+      }
+      wins.push(Window { start: Start::Ymd(y, 1, 15), days: 2 });
+    }
+  }
   let a = walk_days(ctx, "Trace_C02", wins, line);
   let ranges: Vec<(i64, i64)> = if ctx.quick() {
     let mut v: Vec<(i64, i64)> = vec![(0, 3), (7, 26), (235, 241), (1644, 1646), (1959, 1962), (2019, 2026), (7999, 8002), (9996, 9999)];
